@@ -57,6 +57,10 @@ def make_objective(name, np, ub, rettype):
         return lambda x: conv(np.sum(np.abs(x)) + 0.5)
     if name == 'fmax':
         return lambda x: sys.float_info.max
+    if name == 'barrier':
+        # +inf on part of the box (a barrier objective); only used by the reproducibility differential
+        mid = float(np.mean(ubc))
+        return lambda x: float('inf') if float(np.sum(x)) > mid * x.size * 0.6 else conv(np.sum(x ** 2))
     raise KeyError(name)
 
 
